@@ -933,3 +933,7 @@ mod tests {
         }
     ];
 }
+
+#[cfg(kani)]
+#[path = "/verif/kani/op.rs"]
+mod kani_verif;
